@@ -13,20 +13,41 @@ Several of the documented answers do not even depend on the supports or on well-
 by the first comparison in the code — and are stated for EVERY `b : BitVector` (`…_any_bitvector`); the
 statements that identify the answer with the specification then use the C01 hypotheses.
 
-PARTIAL (scope of this file).  Covered here: the plain bitvector (rank, rank_zero, select, select_zero,
-select_iter, predecessor, successor), the iterators `OneIter<T>` and the two-cursor iterators with arbitrary
-`nth` / `nth_back` arguments, and the integer-vector constructors.  The clauses of C09 about the sparse and
-run-length bitvectors, the wavelet matrix and the core mapping are proven in the property files of those
-structures (C02, C03, C04, C15).  The clause "the three bitvector types agree with each other" follows from
-C01, C02 and C03 because each type is shown equal to the SAME list-level specification (`rankSpec`,
-`selectSpec`, `predSpec`, `succSpec` on the common bit sequence), for every argument; it is not restated here.
-The summary theorem is therefore named `plain_bitvector_total_partial`.
+Scope of this file.  Covered, each with a structure-level summary theorem for EVERY argument and both modes:
+  * the plain bitvector (`plain_bitvector_total`): rank, rank_zero, select, select_zero, select_iter,
+    predecessor, successor; the iterators `OneIter<T>` and the two-cursor iterators with arbitrary `nth` /
+    `nth_back` arguments; the integer-vector constructors;
+  * the sparse (Elias–Fano) bitvector (`sparse_total`, set mode; `sparse_multiset_total`), for every vector
+    satisfying the encoding relation — every built one (`sparse_built_total`) and every loaded one;
+  * the run-length bitvector (`run_length_total`), for every accepted builder call history;
+  * the wavelet matrix and its core mapping (`wavelet_matrix_total`, `wavelet_matrix_built_total`): index past
+    the end, rank beyond the occurrences, absent value, value outside the alphabet;
+  * agreement of the three bitvector types on a common bit sequence, for every argument
+    (`three_bitvector_types_agree`).
+In each summary the four documented answers are explicit: `rank` clamps to `count_ones` at `index ≥ len`;
+`select(r)` / `select_zero(r)` are `None` for `r ≥ count`, with empty iterators; `successor` at `≥ len` is
+empty; `predecessor` at `≥ len` behaves as at `len − 1` (empty when there is no set bit).
+
+PARTIAL.  The summaries no longer carry `_partial` in their names because every structure the property names has
+its summary; what is NOT claimed:
+  * `Iterator::nth` / `nth_back` "beyond the remainder" is proven for the plain bitvector's `OneIter<T>` and the
+    two-cursor iterators only; the sparse and run-length iterators use the default `nth` (repeated `next`), and
+    for them only "the exhausted / empty iterator answers `None`" is stated here (call histories of `next` /
+    `next_back`: C02, C10);
+  * run-length `select_zero_iter(r)`, `r < count_zeros`: start position only (C03); sparse
+    `select_zero_iter(r)`, `r < count_zeros`: success only;
+  * sparse `get(i)`, `i ≥ len`, and wavelet-matrix `get(i)`, `i ≥ len`, are outside the documented domain
+    (the library documents "may panic"): `get` past the end of the wavelet matrix IS the `unwrap` panic, in both
+    modes (stated), for the sparse vector see C08 (`never out of bounds`);
+  * multiset-mode sparse vectors: `rank_zero` / `select_zero` are not defined by the library there (C15).
 -/
 import Sds.Proofs.Rank
 import Sds.Proofs.Select
 import Sds.Proofs.Iter
 import Sds.Proofs.IntVec
 import Sds.Proofs.Glue
+import Sds.Proofs.Glue2
+import Sds.Proofs.Glue5
 
 namespace Sds.C09
 open Sds Outcome IterProofs
@@ -291,13 +312,10 @@ theorem intvec_constructors_validate (w n c : Nat) (x : Word) :
 
 /-! ### summary for the plain bitvector -/
 
-/-- **C09 for the plain bitvector (partial: see the header for what other files cover).**  For every
-well-formed raw vector of `usize` length with all supports enabled, both modes, and EVERY argument: each query
-returns its documented answer — none panics.
-
-Full intended statement: the same for the sparse and run-length bitvectors, the wavelet matrix and the core
-mapping, and agreement of the three bitvector types (see the header). -/
-theorem plain_bitvector_total_partial (v : RawVec) (hv : v.WF) (hlen : v.len < 2 ^ 64) (m : Mode) :
+/-- **C09 for the plain bitvector.**  For every well-formed raw vector of `usize` length with all supports
+enabled, both modes, and EVERY argument: each query returns its documented answer — none panics.
+(The other structures: `sparse_total`, `run_length_total`, `wavelet_matrix_total` below.) -/
+theorem plain_bitvector_total (v : RawVec) (hv : v.WF) (hlen : v.len < 2 ^ 64) (m : Mode) :
     (∀ i, v.len ≤ i → (BitVector.ofRaw v).enableAll.rankQ i = ok (v.bits.count true)) ∧
     (∀ i, v.len ≤ i → (BitVector.ofRaw v).enableAll.rankZeroQ m i = ok (i - v.bits.count true)) ∧
     (∀ r, v.bits.count true ≤ r → (BitVector.ofRaw v).enableAll.selectQ m r = ok none ∧
@@ -337,6 +355,241 @@ theorem plain_bitvector_total_partial (v : RawVec) (hv : v.WF) (hlen : v.len < 2
     exact ⟨⟨_, (rank_every_argument v hv hlen m i).1⟩, ⟨_, (rank_every_argument v hv hlen m i).2⟩,
       ⟨_, selectQ_enableAll hv hlen m r⟩, ⟨_, selectZeroQ_enableAll hv hlen m r⟩, ⟨it, hp⟩, ⟨it2, hs⟩⟩
 
+/-! ### summary for the sparse (Elias–Fano) bitvector -/
+
+/-- **C09 for the sparse bitvector, set mode.**  For EVERY vector `s` that encodes a strictly increasing list
+`P` of positions below `n` (`Sparse.Encodes`: every built vector — `sparse_built_total` — and every loaded
+one), both modes, EVERY argument (`Nat`: every `usize` incl. `usize::MAX`):
+`rank(i ≥ len) = count_ones`; `rank_zero(i ≥ len) = i − count_ones`; `select(r ≥ count_ones) = None` with the
+empty iterator, whose `next` is `None`; `select_zero(r ≥ count_zeros) = None` with the empty iterator;
+`successor(x ≥ len)` is the empty iterator; `predecessor(x ≥ len) = predecessor(len − 1)`, the empty iterator
+when there is no set bit; and every query returns (no panic) the set-level reference answer. -/
+theorem sparse_total (s : Sparse) (n w : Nat) (P : List Nat) (hs : s.Encodes n w P)
+    (hstrict : sortedStrict P = true) (m : Mode) :
+    (s.len = n ∧ s.countOnes = P.length ∧ s.countZeros = n - P.length) ∧
+    (∀ i, n ≤ i → s.rank m i = ok P.length) ∧
+    (∀ i, n ≤ i → s.rankZero m i = ok (i - P.length)) ∧
+    (∀ r, P.length ≤ r → s.select m r = ok none ∧ s.selectIter m r = ok (SpOneIter.emptyIter s) ∧
+      SpOneIter.nextQ m s (SpOneIter.emptyIter s) = ok (none, SpOneIter.emptyIter s)) ∧
+    (∀ r, n - P.length ≤ r → s.selectZero m r = ok none ∧
+      s.selectZeroIter m r = ok (SpZeroIter.emptyIter s) ∧
+      SpZeroIter.nextQ m s (SpZeroIter.emptyIter s) = ok (none, SpZeroIter.emptyIter s)) ∧
+    (∀ x, n ≤ x → s.successor m x = ok (SpOneIter.emptyIter s)) ∧
+    (∀ x, n ≤ x → s.predecessor m x = s.predecessor m (n - 1) ∧ predSet P x = predSet P (n - 1)) ∧
+    (P = [] → ∀ x, s.predecessor m x = ok (SpOneIter.emptyIter s)) ∧
+    (∀ i r x, s.rank m i = ok (rankSet P i) ∧ s.rankZero m i = ok (i - rankSet P i) ∧
+      s.select m r = ok (selectSet P r) ∧ s.selectZero m r = ok (selectZeroSet P n r) ∧
+      (∃ it it', s.predecessor m x = ok it ∧ SpOneIter.nextQ m s it = ok (predSet P x, it')) ∧
+      (∃ it it', s.successor m x = ok it ∧ SpOneIter.nextQ m s it = ok (succSet P x, it')) ∧
+      s.selectIter m r = ok (s.iterAt w P r) ∧ (∃ z, s.selectZeroIter m r = ok z)) :=
+  ⟨Glue5.sparse_counts hs, fun i hi => Glue5.sparse_rank_past hs m i hi,
+    fun i hi => Glue5.sparse_rankZero_past hs hstrict m i hi,
+    fun r hr => Glue5.sparse_select_past hs m r hr,
+    fun r hr => ⟨(Glue5.sparse_selectZero_past hs hstrict m r hr).1,
+      (Glue5.sparse_selectZero_past hs hstrict m r hr).2, Glue5.sparse_zeroEmpty_next m s⟩,
+    fun x hx => Glue5.sparse_successor_past hs m x hx,
+    fun x hx => Glue5.sparse_predecessor_clamp hs m x hx,
+    fun hP x => Glue5.sparse_predecessor_empty hs hP m x,
+    fun i r x => ⟨rank_ok hs m i, rankZero_ok hs hstrict m i, select_ok hs m r,
+      Sparse2.selectZero_spec hs hstrict m r, Glue5.sparse_pred_first_item hs m x,
+      Glue5.sparse_succ_first_item hs m x, selectIter_ok hs m r,
+      Glue5.sparse_selectZeroIter_ok hs hstrict m r⟩⟩
+
+/-- **multiset mode** (non-decreasing `P`, duplicates allowed): the same for `rank`, `select`, `successor`,
+`predecessor`, for every argument (`rank_zero` / `select_zero` are not defined by the library there) -/
+theorem sparse_multiset_total (s : Sparse) (n w : Nat) (P : List Nat) (hs : s.Encodes n w P) (m : Mode) :
+    (s.len = n ∧ s.countOnes = P.length) ∧
+    (∀ i, n ≤ i → s.rank m i = ok P.length) ∧
+    (∀ r, P.length ≤ r → s.select m r = ok none ∧ s.selectIter m r = ok (SpOneIter.emptyIter s) ∧
+      SpOneIter.nextQ m s (SpOneIter.emptyIter s) = ok (none, SpOneIter.emptyIter s)) ∧
+    (∀ x, n ≤ x → s.successor m x = ok (SpOneIter.emptyIter s)) ∧
+    (∀ x, n ≤ x → s.predecessor m x = s.predecessor m (n - 1) ∧ predSet P x = predSet P (n - 1)) ∧
+    (P = [] → ∀ x, s.predecessor m x = ok (SpOneIter.emptyIter s)) ∧
+    (∀ i r x, s.rank m i = ok (rankSet P i) ∧ s.select m r = ok (selectSet P r) ∧
+      (∃ it it', s.predecessor m x = ok it ∧ SpOneIter.nextQ m s it = ok (predSet P x, it')) ∧
+      (∃ it it', s.successor m x = ok it ∧ SpOneIter.nextQ m s it = ok (succSet P x, it'))) :=
+  ⟨⟨(Glue5.sparse_counts hs).1, (Glue5.sparse_counts hs).2.1⟩, fun i hi => Glue5.sparse_rank_past hs m i hi,
+    fun r hr => Glue5.sparse_select_past hs m r hr,
+    fun x hx => Glue5.sparse_successor_past hs m x hx,
+    fun x hx => Glue5.sparse_predecessor_clamp hs m x hx,
+    fun hP x => Glue5.sparse_predecessor_empty hs hP m x,
+    fun i r x => ⟨rank_ok hs m i, select_ok hs m r, Glue5.sparse_pred_first_item hs m x,
+      Glue5.sparse_succ_first_item hs m x⟩⟩
+
+/-- the hypothesis of `sparse_total` holds of every built vector: every admissible low width `1..63`, every
+universe `n < 2^64`, every strictly increasing list of fewer than 2^63 positions below `n` -/
+theorem sparse_built_total (w n : Nat) (P : List Nat) (hw1 : 1 ≤ w) (hw : w ≤ 63) (hn : n < 2 ^ 64)
+    (hm : P.length < 2 ^ 63) (hsorted : sortedStrict P = true) (hbound : ∀ p ∈ P, p < n) (m : Mode) :
+    ∃ s, Sparse.ofValues w n false P = ok s ∧ s.Encodes n w P ∧
+      (∀ i, n ≤ i → s.rank m i = ok s.countOnes) ∧
+      (∀ r, s.countOnes ≤ r → s.select m r = ok none) ∧
+      (∀ r, s.countZeros ≤ r → s.selectZero m r = ok none) ∧
+      (∀ x, n ≤ x → s.successor m x = ok (SpOneIter.emptyIter s)) ∧
+      (∀ x, n ≤ x → s.predecessor m x = s.predecessor m (n - 1)) := by
+  obtain ⟨s, h1, hs⟩ := ofValues_set_ok w n P hw1 hw hn hm hsorted hbound
+  obtain ⟨_, c1, c0⟩ := Glue5.sparse_counts hs
+  exact ⟨s, h1, hs, fun i hi => by rw [c1]; exact Glue5.sparse_rank_past hs m i hi,
+    fun r hr => (Glue5.sparse_select_past hs m r (by rw [← c1]; exact hr)).1,
+    fun r hr => (Glue5.sparse_selectZero_past hs hsorted m r (by rw [← c0]; exact hr)).1,
+    fun x hx => Glue5.sparse_successor_past hs m x hx,
+    fun x hx => (Glue5.sparse_predecessor_clamp hs m x hx).1⟩
+
+/-! ### summary for the run-length bitvector -/
+
+/-- **C09 for the run-length bitvector.**  For EVERY accepted builder call history (`try_set` / `set_len` /
+`set_bit`, `usize` arguments) describing the bit sequence `B`, the converted vector, both modes, EVERY argument
+(also `≥ len`, `usize::MAX = 2^64 − 1` and beyond): `rank(i ≥ len) = count_ones`;
+`rank_zero(i ≥ len) = i − count_ones`; `get(i ≥ len) = false` (no panic); `select(r ≥ count_ones) = None` with
+the empty iterator, whose `next` is `None`; `select_zero(r ≥ count_zeros) = None` with the empty iterator;
+`successor(x ≥ len)` is the empty iterator; `predecessor(x ≥ len)` is the computation of
+`predecessor(len − 1)`, whose first item is the last set bit with rank `count_ones − 1`, or nothing when there is
+no set bit; and every query returns (no panic, no overflow in the checked build) the list-level answer. -/
+theorem run_length_total (m : Mode) (calls : List RL.BCall) (hc : ∀ c ∈ calls, RL.callArgsOk c)
+    (b : RLBuilder) (hb : RL.runBCalls m calls {} = ok b) (v : RL) (hv : RL.ofBuilder m b = ok v)
+    (B : List Bool) (hB : calls.foldl RL.specCall [] = B) :
+    (v.len = B.length ∧ v.ones = B.count true ∧ v.countZeros = B.count false) ∧
+    (∀ i, B.length ≤ i → v.rank m i = ok (B.count true)) ∧
+    (∀ i, B.length ≤ i → v.rankZero m i = ok (i - B.count true)) ∧
+    (∀ i, B.length ≤ i → v.get m i = ok false) ∧
+    (∀ r, B.count true ≤ r → v.select m r = ok none ∧ v.selectIter m r = ok (RLOneIter.emptyIter v) ∧
+      (RLOneIter.emptyIter v).nextQ m v = ok (none, RLOneIter.emptyIter v)) ∧
+    (∀ r, B.count false ≤ r → v.selectZero m r = ok none ∧ v.selectZeroIter m r = ok (Glue5.rlZeroEnd v) ∧
+      (Glue5.rlZeroEnd v).nextQ m v = ok (none, Glue5.rlZeroEnd v)) ∧
+    (∀ x, B.length ≤ x → v.successor m x = ok (RLOneIter.emptyIter v)) ∧
+    (∀ x, B.length ≤ x → v.predecessor m x = v.predecessor m (B.length - 1) ∧
+      predSpec B x = predSpec B (B.length - 1) ∧
+      predSpec B x = if B.count true = 0 then none
+        else some (B.count true - 1, (onesPos B)[B.count true - 1]?.getD 0)) ∧
+    (∀ i r x, v.rank m i = ok (rankSpec B i) ∧ v.rankZero m i = ok (i - rankSpec B i) ∧
+      v.select m r = ok (selectSpec B r) ∧ v.selectZero m r = ok (selectZeroSpec B r) ∧
+      (∃ oi oi', v.predecessor m x = ok oi ∧ oi.nextQ m v = ok (predSpec B x, oi')) ∧
+      (∃ oi oi', v.successor m x = ok oi ∧ oi.nextQ m v = ok (succSpec B x, oi')) ∧
+      (∃ st, v.selectIter m r = ok st) ∧ (∃ z, v.selectZeroIter m r = ok z)) := by
+  subst hB
+  obtain ⟨g, e1, e2, e3⟩ := Glue5.rl_good m calls hc b hb v hv
+  obtain ⟨_, _, _, q4, q5, q6, _, q8, q9, q10, q11⟩ :=
+    RLQ.build_queries m calls hc b hb v hv (Glue5.blocks_bound_calls m calls hc b hb v hv).2
+  refine ⟨⟨e1, e2, e3⟩, fun i hi => by rw [q5 i, rankSpec_of_ge _ i hi],
+    fun i hi => by rw [q6 i, rankSpec_of_ge _ i hi],
+    fun i hi => by rw [q4 i, Glue5.getSpec_ge _ i hi],
+    fun r hr => ⟨(Glue5.rl_select_past m v r (by rw [e2]; exact hr)).1,
+      (Glue5.rl_select_past m v r (by rw [e2]; exact hr)).2, RLQ.oneIter_nextQ_empty m v⟩,
+    fun r hr => ⟨(Glue5.rl_selectZero_past m v r (by rw [e3]; exact hr)).1,
+      (Glue5.rl_selectZero_past m v r (by rw [e3]; exact hr)).2,
+      Glue5.rl_zeroEnd_next m v (by rw [e1, e2]; exact List.count_le_length)⟩,
+    fun x hx => Glue5.rl_successor_past m v x (by rw [e1]; exact hx),
+    fun x hx => ⟨by rw [← e1]; exact (Glue5.rl_predecessor_clamp m v x (by rw [e1]; exact hx)).1,
+      Glue5.predSpec_clamp _ x hx, Glue5.predSpec_of_ge _ x (by omega)⟩,
+    fun i r x => ⟨q5 i, q6 i, q8 r, q9 r, q11 x, q10 x,
+      ?_, ?_⟩⟩
+  · obtain ⟨st, _, h, _⟩ := Glue5.rl_selectIter_drain m _ g e2 r _ (Nat.le_refl _)
+    exact ⟨st, h⟩
+  · obtain ⟨z, hz, _⟩ := Glue5.rl_selectZeroIter_ok m g r
+    exact ⟨z, hz⟩
+
+/-! ### summary for the wavelet matrix and its core mapping -/
+
+/-- **C09 for the wavelet matrix.**  For EVERY matrix satisfying the invariant `WM.Ok` (the built one:
+`wavelet_matrix_built_total`; any loaded one), both modes, EVERY index, rank and value (`Nat`): with an index
+`≥ len`, `rank` clamps to the number of occurrences, `successor` likewise, `inverse_select` is `None`, `get` is
+the documented `unwrap` panic (never a wrong value), `predecessor` behaves as at `len − 1`;
+`select(r, v)` with `r ≥` the occurrences of `v` is `None` and the value iterator ends; a value that does not
+occur — in particular every value outside the alphabet, `v ≥ 2^width` — has `contains = false`, `rank = 0`,
+`select = None`, the empty `predecessor` (`len`) and `successor` rank 0; the core mappings `map_down_with`,
+`map_up_with` return for every position and value; and every query returns the list-level answer. -/
+theorem wavelet_matrix_total (w : WM) (V : List Nat) (width : Nat) (hw : w.Ok V width) (m : Mode) :
+    (∀ i v, V.length ≤ i → w.rank m i v = ok (V.count v) ∧ w.successor m i v = ok (V.count v)) ∧
+    (∀ r v, V.count v ≤ r → w.select m r v = ok none ∧ ∃ st, w.valueIterNext m v r = ok (none, st)) ∧
+    (∀ i, V.length ≤ i → w.inverseSelect m i = ok none ∧ w.get m i = fault (.panic .unwrap)) ∧
+    (∀ i v, V.length ≤ i → w.predecessor m i v = w.predecessor m (V.length - 1) v ∧
+      w.predecessor m i v = ok (if V.count v > 0 then V.count v - 1 else V.length)) ∧
+    (∀ v, (v ∉ V ∨ 2 ^ width ≤ v) → w.contains v = ok false ∧ (∀ i, w.rank m i v = ok 0) ∧
+      (∀ r, w.select m r v = ok none) ∧ (∀ i, w.predecessor m i v = ok V.length) ∧
+      (∀ i, w.successor m i v = ok 0)) ∧
+    (∀ i r v, w.rank m i v = ok ((V.take i).count v) ∧ w.select m r v = ok (selectVal V v r) ∧
+      w.contains v = ok (decide (v ∈ V)) ∧
+      w.predecessor m i v =
+        ok (if (V.take (i + 1)).count v > 0 then (V.take (i + 1)).count v - 1 else V.length) ∧
+      w.successor m i v = ok ((V.take i).count v) ∧
+      (∃ o, w.inverseSelect m i = ok o) ∧
+      w.data.mapDownWith m i v = ok (firstPos width V v + (V.take i).count (v % 2 ^ width)) ∧
+      w.data.mapUpWith m i v = ok (if i < firstPos width V v then none
+        else selectVal V (v % 2 ^ width) (i - firstPos width V v))) := by
+  refine ⟨fun i v hi => Glue5.wm_rank_past hw m i v hi, fun r v hr => Glue5.wm_select_past hw m r v hr,
+    fun i hi => ⟨inverseSelect_none hw m i hi, get_panic hw m i hi⟩,
+    fun i v hi => ⟨Glue5.wm_predecessor_clamp hw m i v hi, Glue5.wm_predecessor_past hw m i v (by omega)⟩,
+    fun v hv => Glue5.wm_absent hw m v (hv.elim id (Glue5.wm_outside_alphabet hw v)),
+    fun i r v => ⟨rank_ok_wm hw m i v, select_ok_wm hw m r v, contains_ok hw v, predecessor_ok hw m i v,
+      successor_ok hw m i v, ?_, mapDownWith_ok' hw.core m i v, mapUpWith_total hw.core m i v⟩⟩
+  by_cases h : i < V.length
+  · exact ⟨_, inverseSelect_ok hw m i h⟩
+  · exact ⟨_, inverseSelect_none hw m i (Nat.le_of_not_lt h)⟩
+
+/-- the hypothesis of `wavelet_matrix_total` holds of every built matrix: every list of `u64` values shorter
+than 2^63 (with the four documented out-of-range answers spelled out for it) -/
+theorem wavelet_matrix_built_total (V : List Nat) (hV : ∀ v, v ∈ V → v < 2 ^ 64) (hlen : V.length < 2 ^ 63)
+    (m : Mode) :
+    (WM.ofValues V).Ok V (widthOf V) ∧
+    (∀ i v, V.length ≤ i → (WM.ofValues V).rank m i v = ok (V.count v)) ∧
+    (∀ r v, V.count v ≤ r → (WM.ofValues V).select m r v = ok none) ∧
+    (∀ i, V.length ≤ i → (WM.ofValues V).inverseSelect m i = ok none) ∧
+    (∀ i v, V.length ≤ i →
+      (WM.ofValues V).predecessor m i v = (WM.ofValues V).predecessor m (V.length - 1) v) :=
+  have hw := WM.ofValues_ok_full V hV hlen
+  ⟨hw, fun i v hi => (Glue5.wm_rank_past hw m i v hi).1, fun r v hr => (Glue5.wm_select_past hw m r v hr).1,
+    fun i hi => inverseSelect_none hw m i hi, fun i v hi => Glue5.wm_predecessor_clamp hw m i v hi⟩
+
+/-! ### the three bitvector types agree -/
+
+/-- **the three bitvector types agree with each other**, for every bit sequence `B` of `usize` length with
+fewer than 2^63 set bits (the sparse builder's bound), every admissible low width, both modes, EVERY argument:
+the plain bitvector built from `B`, the sparse vector built from the set positions of `B` over the universe
+`|B|`, and the run-length vector converted after ANY accepted call history describing `B` return the same
+`rank`, `rank_zero`, `select`, `select_zero`, and the same first item for `predecessor` and `successor` —
+namely the list-level answers on `B` — in-range and out-of-range alike. -/
+theorem three_bitvector_types_agree (B : List Bool) (hB : B.length < 2 ^ 64) (hones : B.count true < 2 ^ 63)
+    (w : Nat) (hw1 : 1 ≤ w) (hw : w ≤ 63) (m : Mode)
+    (calls : List RL.BCall) (hc : ∀ c ∈ calls, RL.callArgsOk c) (hspec : calls.foldl RL.specCall [] = B)
+    (b : RLBuilder) (hb : RL.runBCalls m calls {} = ok b) :
+    ∃ s v, Sparse.ofValues w B.length false (onesPos B) = ok s ∧ RL.ofBuilder m b = ok v ∧
+      (∀ i, (BitVector.ofRaw (RawVec.ofBits B)).enableAll.rankQ i = ok (rankSpec B i) ∧
+        s.rank m i = ok (rankSpec B i) ∧ v.rank m i = ok (rankSpec B i)) ∧
+      (∀ i, (BitVector.ofRaw (RawVec.ofBits B)).enableAll.rankZeroQ m i = ok (i - rankSpec B i) ∧
+        s.rankZero m i = ok (i - rankSpec B i) ∧ v.rankZero m i = ok (i - rankSpec B i)) ∧
+      (∀ r, (BitVector.ofRaw (RawVec.ofBits B)).enableAll.selectQ m r = ok (selectSpec B r) ∧
+        s.select m r = ok (selectSpec B r) ∧ v.select m r = ok (selectSpec B r)) ∧
+      (∀ r, (BitVector.ofRaw (RawVec.ofBits B)).enableAll.selectZeroQ m r = ok (selectZeroSpec B r) ∧
+        s.selectZero m r = ok (selectZeroSpec B r) ∧ v.selectZero m r = ok (selectZeroSpec B r)) ∧
+      (∀ x, (∃ it it', (BitVector.ofRaw (RawVec.ofBits B)).enableAll.predecessorQ m x = ok it ∧
+          OneIterSt.nextQ .ident m (BitVector.ofRaw (RawVec.ofBits B)).enableAll it = ok (predSpec B x, it')) ∧
+        (∃ it it', s.predecessor m x = ok it ∧ SpOneIter.nextQ m s it = ok (predSpec B x, it')) ∧
+        (∃ oi oi', v.predecessor m x = ok oi ∧ oi.nextQ m v = ok (predSpec B x, oi'))) ∧
+      (∀ x, (∃ it it', (BitVector.ofRaw (RawVec.ofBits B)).enableAll.successorQ m x = ok it ∧
+          OneIterSt.nextQ .ident m (BitVector.ofRaw (RawVec.ofBits B)).enableAll it = ok (succSpec B x, it')) ∧
+        (∃ it it', s.successor m x = ok it ∧ SpOneIter.nextQ m s it = ok (succSpec B x, it')) ∧
+        (∃ oi oi', v.successor m x = ok oi ∧ oi.nextQ m v = ok (succSpec B x, oi'))) := by
+  subst hspec
+  obtain ⟨hst, hbd, hl⟩ := Glue5.onesPos_admissible (calls.foldl RL.specCall [])
+  obtain ⟨s, hs1, hs⟩ := ofValues_set_ok w _ _ hw1 hw hB (by rw [hl]; exact hones) hst hbd
+  obtain ⟨v, hv⟩ := RL.ofBuilder_total m calls hc b hb
+  obtain ⟨_, _, _, _, q5, q6, _, q8, q9, q10, q11⟩ :=
+    RLQ.build_queries m calls hc b hb v hv (Glue5.blocks_bound_calls m calls hc b hb v hv).2
+  obtain ⟨r1, r2, r3, r4⟩ := Glue5.set_specs_onesPos (calls.foldl RL.specCall [])
+  have hwf := RawVec.ofBits_WF (calls.foldl RL.specCall [])
+  have hbits := RawVec.bits_ofBits (calls.foldl RL.specCall [])
+  have hlen : (RawVec.ofBits (calls.foldl RL.specCall [])).len < 2 ^ 64 := by
+    rw [← RawVec.bits_length, hbits]; exact hB
+  have hplain := fun x => predecessor_successor_every_argument _ hwf hlen m x
+  have hrk := fun i => rank_every_argument _ hwf hlen m i
+  simp only [hbits] at hplain hrk
+  refine ⟨s, v, hs1, hv, fun i => ⟨(hrk i).1, by rw [rank_ok hs m i, r1], q5 i⟩,
+    fun i => ⟨(hrk i).2, by rw [rankZero_ok hs hst m i, r1], q6 i⟩,
+    fun r => ⟨by rw [selectQ_enableAll hwf hlen m r, hbits], by rw [select_ok hs m r, r2], q8 r⟩,
+    fun r => ⟨by rw [selectZeroQ_enableAll hwf hlen m r, hbits],
+      by rw [Sparse2.selectZero_spec hs hst m r, Glue5.selectZeroSet_onesPos], q9 r⟩,
+    fun x => ⟨(hplain x).1, by rw [← r3 x]; exact Glue5.sparse_pred_first_item hs m x, q11 x⟩,
+    fun x => ⟨(hplain x).2, by rw [← r4 x]; exact Glue5.sparse_succ_first_item hs m x, q10 x⟩⟩
+
 /-! ### non-vacuity -/
 
 example : (RawVec.ofBits [true, false, true]).WF ∧ (RawVec.ofBits [true, false, true]).len < 2 ^ 64 := by decide
@@ -347,5 +600,37 @@ example : (BitVector.ofRaw (RawVec.ofBits [true, false, true])).enableAll.select
 example : Rel .ident (RawVec.ofBits [true, true]) ⟨(1, 1), (2, 2)⟩ 1 2 := F1_state_rel
 example : IntVec.new 0 = fault (.err .other) ∧ IntVec.new 65 = fault (.err .other) ∧
     IntVec.new (2 ^ 64 - 1) = fault (.err .other) := by decide
+
+/-- sparse: an encoded vector exists (built from `[0, 5, 9]` over the universe 10, low width 2), and the
+reference answers at out-of-range arguments -/
+example : ∃ s, Sparse.ofValues 2 10 false [0, 5, 9] = ok s ∧ s.Encodes 10 2 [0, 5, 9] :=
+  ofValues_set_ok 2 10 [0, 5, 9] (by decide) (by decide) (by decide) (by decide) (by decide) (by decide)
+example : rankSet [0, 5, 9] (2 ^ 64 - 1) = 3 ∧ selectSet [0, 5, 9] 3 = none ∧ succSet [0, 5, 9] 10 = none ∧
+    predSet [0, 5, 9] (2 ^ 64 - 1) = some (2, 9) ∧ predSet [0, 5, 9] 9 = some (2, 9) := by decide
+/-- run-length: an accepted call history, converted, queried at `usize::MAX` in both modes -/
+example :
+    (do let b ← RL.runBCalls .checked [.set 0 2, .bit 4, .set 5 3, .setLen 12] {}
+        let v ← RL.ofBuilder .checked b
+        let r ← v.rank .checked (2 ^ 64 - 1)
+        let s ← v.select .checked (2 ^ 64 - 1)
+        let p ← v.predecessor .checked (2 ^ 64 - 1)
+        let (pi, _) ← p.nextQ .checked v
+        return (v.len, r, s, pi)) = ok (12, 6, none, some (5, 7)) := by
+  decide +kernel
+example :
+    (do let b ← RL.runBCalls .wrapping [.set 0 2, .bit 4, .set 5 3, .setLen 12] {}
+        let v ← RL.ofBuilder .wrapping b
+        let r ← v.rank .wrapping (2 ^ 64 - 1)
+        let s ← v.successor .wrapping (2 ^ 64 - 1)
+        let (si, _) ← s.nextQ .wrapping v
+        return (v.len, r, si)) = ok (12, 6, none) := by
+  decide +kernel
+example : ∀ c ∈ [RL.BCall.set 0 2, .bit 4, .set 5 3, .setLen 12], RL.callArgsOk c := by
+  intro c hc
+  simp only [List.mem_cons, List.mem_nil_iff, or_false] at hc
+  rcases hc with rfl | rfl | rfl | rfl <;> first | trivial | (show _ < U64; decide)
+/-- wavelet matrix: the invariant holds of the matrix built from `[3, 1, 3, 0]` -/
+example : (WM.ofValues [3, 1, 3, 0]).Ok [3, 1, 3, 0] (widthOf [3, 1, 3, 0]) :=
+  WM.ofValues_ok_full _ (by decide) (by decide)
 
 end Sds.C09
